@@ -30,6 +30,10 @@ pub fn ops() -> Vec<(&'static str, Checker)> {
 // ---------------------------------------------------------------------------------------------
 // compile-time modulus bank
 
+pub trait BankVisitor {
+    fn visit<M: ConstMontyParams<L>, const L: usize>(&mut self);
+}
+
 macro_rules! bank {
     ($( ($name:ident, $ty:ty, $limbs:literal, $hex:literal) ),* $(,)?) => {
         $( impl_modulus!($name, $ty, $hex); )*
@@ -39,6 +43,16 @@ macro_rules! bank {
             let mut i = 0usize;
             $(
                 if idx == i { return history_const::<$name, $limbs>(c, rep); }
+                i += 1;
+            )*
+            let _ = i;
+            panic!("harness: bank index out of range");
+        }
+        /// generic dispatch over the bank for other property modules
+        pub fn bank_dispatch<V: BankVisitor>(idx: usize, v: &mut V) {
+            let mut i = 0usize;
+            $(
+                if idx == i { return v.visit::<$name, $limbs>(); }
                 i += 1;
             )*
             let _ = i;
